@@ -132,7 +132,7 @@ def gen_response(rng, prepared, feat, allow_bad_encoding=True, plain_headers=Fal
     else:
         feat(f"resp-encoding:{'none' if enc is None else 'known'}")
     feat("resp-content:empty" if not content else "resp-content:bytes")
-    return Response(status_code=rng.choice([200, 201, 204, 301, 400, 404, 500, 503, 100, 599]), headers=headers, content=content,
+    return headers, Response(status_code=rng.choice([200, 201, 204, 301, 400, 404, 500, 503, 100, 599]), headers=dict(headers), content=content,
                     request=prepared, elapsed=rng.choice([0.0, 0.1, 1.5, 1e-05, 12.0, 0.123456]), verify=False,
                     message=gen_latin1(rng, 8) if rng.random() < 0.6 else rng.choice(["OK", "Not Found", ""]),
                     http_version=rng.choice(["1.1", "1.0"]), encoding=enc)
@@ -180,7 +180,7 @@ def gen_recorder(rng, feat, label=None, n_cases=None, allow_bad_encoding=True, t
             fed[case.id] = {"prepared": prepared, "response": None, "checks": None, "case": case}
             continue
         feat("interaction:response")
-        resp = gen_response(rng, prepared, feat, allow_bad_encoding)
+        headers_in, resp = gen_response(rng, prepared, feat, allow_bad_encoding)
         rec.record_response(case_id=case.id, response=resp)
         checks = None
         if rng.random() < 0.85:
@@ -198,7 +198,13 @@ def gen_recorder(rng, feat, label=None, n_cases=None, allow_bad_encoding=True, t
             feat("checks:some-failed" if any(t is not None for _, t in checks) else "checks:all-passed")
         else:
             feat("checks:not-recorded")
-        fed[case.id] = {"prepared": prepared, "response": resp, "checks": checks, "case": case}
+        # what the server sent, independent of how Response stores it: names compare case-insensitively, a later
+        # duplicate name replaces an earlier one
+        sent = {}
+        for k, v in headers_in.items():
+            sent[k.lower()] = list(v)
+        fed[case.id] = {"prepared": prepared, "response": resp, "checks": checks, "case": case, "orig_headers": sent,
+                        "headers_in": {k: list(v) for k, v in headers_in.items()}}
     return rec, fed
 
 
